@@ -11,11 +11,14 @@ import (
 type Trace struct {
 	Labels   []string // Coq terms (label, option json)
 	Toks     []string // query token per label (Server/Queries.v)
+	Inits    []string // per label: for a run completion, `initial` as StartExecution and the middlewares were told
 	Names    []string // short names, for histograms and replay files
 	Out      []string // mk_obs terms
 	Log      []string // LgSub / LgUnsub terms
 	Streams  map[int][]interface{}
 	Released []string // resources whose Cleanup ran, once per call
+	Rx       map[int][]string // generation -> what reactive/rerunner.go reported for its rerunner (Server/Iface.v terms)
+	Gens     int              // generations accepted
 }
 
 func coqStr(s string) string { return vh.CoqString(s) }
@@ -152,12 +155,20 @@ func closeTasks(evs []Event) []closeTask {
 	return out
 }
 
+// metaInt reads an integer out of the metadata of a written envelope.
+func metaInt(env map[string]interface{}, key string) (int, bool) {
+	m, _ := env["metadata"].(map[string]interface{})
+	f, ok := m[key].(float64)
+	return int(f), ok
+}
+
 var typeCode = map[string]int{"update": 0, "result": 1, "error": 2, "echo": 3}
 
 // BuildTrace turns the event log into the label sequence and the observations the model must predict.
 func BuildTrace(res *Result) *Trace {
-	t := &Trace{Streams: map[int][]interface{}{}}
+	t := &Trace{Streams: map[int][]interface{}{}, Rx: map[int][]string{}}
 	v := analyze(res.Events)
+	t.Gens = len(v.gens)
 	tokOf := map[string]int{}
 	token := func(key string) int {
 		if n, ok := tokOf[key]; ok {
@@ -167,6 +178,7 @@ func BuildTrace(res *Result) *Trace {
 		return len(tokOf)
 	}
 	nextTok := 0 // token of the next label emitted
+	nextInit := "None"
 	emit := func(term, name string, prev string) {
 		if prev == "" {
 			prev = "None"
@@ -174,6 +186,8 @@ func BuildTrace(res *Result) *Trace {
 		t.Labels = append(t.Labels, "("+term+", "+prev+")")
 		t.Toks = append(t.Toks, fmt.Sprint(nextTok))
 		nextTok = 0
+		t.Inits = append(t.Inits, nextInit)
+		nextInit = "None"
 		t.Names = append(t.Names, name)
 	}
 	// the (query text, variables) a message asks for / a computation executed
@@ -252,6 +266,7 @@ func BuildTrace(res *Result) *Trace {
 			gen = 999
 		}
 		nextTok = token(runKeyOf(r))
+		nextInit = fmt.Sprintf("(Some (%s, %s))", vh.CoqBool(r.StartInitial), vh.CoqBool(e.Initial))
 		emit(fmt.Sprintf("LRun %d %s", gen, o), name, "(Some "+vh.CoqJSON(e.Previous)+")")
 	}
 	for evIdx, e := range res.Events {
@@ -304,6 +319,20 @@ func BuildTrace(res *Result) *Trace {
 			emit(fmt.Sprintf("LRegister %d %d", gen, e.Res), "register", "")
 		case "cleanup":
 			t.Released = append(t.Released, fmt.Sprint(e.Res))
+		case "rx":
+			if e.Gen < 0 {
+				break
+			}
+			switch e.Point {
+			case "publish":
+				t.Rx[e.Gen] = append(t.Rx[e.Gen], "XPub "+vh.CoqBool(e.Flag))
+			case "failed":
+				t.Rx[e.Gen] = append(t.Rx[e.Gen], "XFail")
+			case "retry":
+				t.Rx[e.Gen] = append(t.Rx[e.Gen], "XRetry")
+			case "mark":
+				t.Rx[e.Gen] = append(t.Rx[e.Gen], "XStop "+vh.CoqBool(e.Flag))
+			}
 		case "writefail":
 			// the socket refuses the envelope: same label as a write, the model (after LBreak) loses it too
 			if !broken {
@@ -328,7 +357,11 @@ func BuildTrace(res *Result) *Trace {
 				if r := v.runs[e.Run]; r != nil {
 					emitRun(r)
 					if r.Gen >= 0 {
-						src = fmt.Sprintf("(Some %d)", r.Gen)
+						// the rerunner an envelope comes from is read off the envelope: the metadata the computation's
+						// middlewares attached (outEnvelope.Metadata = output.Metadata)
+						if g, ok := metaInt(e.Env, "vgen"); ok && g >= 0 {
+							src = fmt.Sprintf("(Some %d)", g)
+						}
 						if typ == "update" {
 							t.Streams[r.Gen] = append(t.Streams[r.Gen], e.Env["message"])
 						}
@@ -369,8 +402,12 @@ func (t *Trace) CaseTerm(max int, clients map[int]interface{}, gens []int) strin
 		ids = append(ids, fmt.Sprint(i))
 	}
 	ids = append(ids, "99")
-	return fmt.Sprintf("mk_case (repaired %d)\n  %s\n  %s\n  %s\n  %s\n  %s\n  %s\n  []\n  %s",
-		max, vh.CoqList(t.Labels), vh.CoqList(t.Toks), vh.CoqList(t.Out), vh.CoqList(t.Log), vh.CoqList(ids), vh.CoqList(cl), vh.CoqList(t.Released))
+	var rx []string
+	for g := 0; g < t.Gens; g++ {
+		rx = append(rx, fmt.Sprintf("(%d, %s)", g, vh.CoqList(t.Rx[g])))
+	}
+	return fmt.Sprintf("mk_case (repaired %d)\n  %s\n  %s\n  %s\n  %s\n  %s\n  %s\n  %s\n  []\n  %s\n  %s",
+		max, vh.CoqList(t.Labels), vh.CoqList(t.Inits), vh.CoqList(t.Toks), vh.CoqList(t.Out), vh.CoqList(t.Log), vh.CoqList(ids), vh.CoqList(cl), vh.CoqList(t.Released), vh.CoqList(rx))
 }
 
 func (t *Trace) Summary() string { return strings.Join(t.Names, " ") }
